@@ -135,13 +135,19 @@ impl Position {
                 }
             }
         } else if let (Some(w), Some(h)) = (self.width, self.height) {
-            if let Some((x1, x2)) = x_ext {
-                Some(BoundingBox::new(x1, 0., x2, h))
-            } else if let Some((y1, y2)) = y_ext {
-                Some(BoundingBox::new(0., y1, w, y2))
+            // if x/y (etc) are absent, SVG says they are treated as zero: that is
+            // the top-left corner of a box, but the centre (cx/cy) of an ellipse.
+            let (x0, y0) = if self.shape == "ellipse" {
+                (-w / 2., -h / 2.)
             } else {
-                // if x/y (etc) are absent, SVG says they are treated as zero.
-                Some(BoundingBox::new(0., 0., w, h))
+                (0., 0.)
+            };
+            if let Some((x1, x2)) = x_ext {
+                Some(BoundingBox::new(x1, y0, x2, y0 + h))
+            } else if let Some((y1, y2)) = y_ext {
+                Some(BoundingBox::new(x0, y1, x0 + w, y2))
+            } else {
+                Some(BoundingBox::new(x0, y0, x0 + w, y0 + h))
             }
         } else {
             None
